@@ -1,5 +1,6 @@
 """C07 - see DESIGN.md section 5; shared machinery in corecommon.py"""
 from checks import corecommon as cc
+from checks import ctxhist
 
 PID = "C07"
 LEVEL = cc.LEVEL
@@ -12,14 +13,18 @@ RULE = ("grammar-generated task programs (profiles %s; trees and DAGs of tasks, 
         "and raising flushes, nested yield structures, errors, try/except, synchronous re-entry, contexts) interpreted on "
         "the real scheduler and replayed in the Lean machine with the implementation's flush choices; non-trivial = at "
         "least 2 tasks and 1 scheduler flush; distinct by hash of (configuration, programs)" % (", ".join(p for p, _ in MIX)))
-TRUSTED = cc.TRUSTED_CORE
-ASSUMPTIONS = cc.ASSUMPTIONS_CORE
+LEAN_MODULES = LEAN_MODULES + ctxhist.LEAN_MODULES
+THEOREMS = THEOREMS + ["AsynqModel.Contexts." + n for n in ctxhist.THEOREMS]
+RULE += "; plus " + ctxhist.RULE
+TRUSTED = cc.TRUSTED_CORE + ctxhist.TRUSTED
+ASSUMPTIONS = cc.ASSUMPTIONS_CORE + ctxhist.ASSUMPTIONS
 
 
 def extra(tier, rng):
     import coregen
     return [coregen.override_family(rng) for _ in range(150 if tier == "quick" else 3000)] + \
-        [coregen.shared_override_family(rng) for _ in range(100 if tier == "quick" else 2000)]
+        [coregen.shared_override_family(rng) for _ in range(100 if tier == "quick" else 2000)] + \
+        ctxhist.cases(tier, rng, focus="ov")
 
 
 def plan(tier, seed):
@@ -27,14 +32,20 @@ def plan(tier, seed):
 
 
 def run_case(case):
+    if case.get("special") == "ctxhist":
+        return ctxhist.run(case)
     return cc.run_case_for(PID, case)
 
 
 def shrink(case):
+    if case.get("special") == "ctxhist":
+        return ctxhist.shrink(case)
     return cc.shrink_case(case)
 
 
 def neighbours(case, rng):
+    if case.get("special") == "ctxhist":
+        return ctxhist.neighbours(case, rng)
     return cc.neighbours_case(case, rng, [p for p, _ in MIX])
 
 
